@@ -39,7 +39,11 @@ func TestC01(t *testing.T) {
 	s1 := corpusS1(b, churn())
 	s2 := corpusS2(n2, "1", b, churn())
 	s3 := corpusS3(n3, "1", "auto", b, churn())
-	scs = append(scs, s1, s2, s3)
+	// a canary pod whose node is lost (phase Unknown) and a canary that is validated all the same: promotion, label
+	// clean-up and the following rollout must leave that pod alone
+	s3u := corpusS3(n2, "1", "auto", 2, &w.Alpha{PodDev: []string{"unknown"}, Kubectl: []string{"canary-validate"}})
+	s3u.name = "S3-canary-unknown-pod-validated"
+	scs = append(scs, s1, s2, s3, s3u)
 	for _, o := range scs {
 		o.mons = mons
 		setupRun = run
